@@ -26,7 +26,7 @@ import numpy as np
 from hypothesis import strategies as st
 
 import common  # noqa: F401
-from common import Sub, lib, require
+from common import Sub, Violation, lib, require
 import gens
 from gens import build_model, logfloat
 from oracles import geometry as geo
@@ -70,7 +70,8 @@ ASSUMPTIONS = [
 #    *every* bin.  With the switch on, a count mismatch is accepted only if it is
 #    reproduced exactly by entering a subset of the pairs with gc > pi - 1e-7 into
 #    every bin (counted as excluded); everything else stays a violation.
-KNOWN = {"polar_roundtrip": True, "antipodal_nan": True}
+# polar_roundtrip: fixed in /repo by 7dac2c5 (switch off, assertion live); antipodal_nan: known finding K9 (kernel)
+KNOWN = {"polar_roundtrip": False, "antipodal_nan": True}
 
 EPS = float(np.finfo(float).eps)
 TINY = 1e-290  # absolute floor: t / anis underflows gradually for subnormal times
@@ -1311,7 +1312,15 @@ def check_estimator(case, rec):
                 + ("; explained by antipodal pairs entering every bin (NaN distance)" if match else ""),
                 dict(tags, kind="counts_antipodal_nan" if match else "counts"),
             )
-        rec.exclude("antipodal_nan_distance")
+        # listed in known_findings.json -> counted as a known hit, else an exclusion
+        try:
+            rec.soft(
+                f"antipodal pairs get a NaN great-circle distance and enter every bin: counts {counts.tolist()} "
+                f"vs {cnt_o.tolist()}",
+                dict(tags, kind="counts_antipodal_nan"),
+            )
+        except Violation:
+            rec.exclude("antipodal_nan_distance")
         cnt_o, sm_o = match[0], match[1]
     val_o = _matheron(cnt_o, sm_o)
     scale = max(1e-300, float(np.max(np.abs(val_o))))
@@ -1538,10 +1547,10 @@ def check_rotation(case, rec):
 # ---------------------------------------------------------------------------
 
 SUBS = [
-    Sub("convert", gen_convert, check_convert, quick=1200, thorough=40000, shards_quick=2, shards_thorough=8),
-    Sub("euclid_t", gen_euclid_t, check_euclid_t, quick=600, thorough=16000, shards_quick=2, shards_thorough=4),
+    Sub("convert", gen_convert, check_convert, quick=1200, thorough=30000, shards_quick=2, shards_thorough=8),
+    Sub("euclid_t", gen_euclid_t, check_euclid_t, quick=600, thorough=12000, shards_quick=2, shards_thorough=4),
     Sub("cov", gen_cov, check_cov, quick=900, thorough=20000, shards_quick=3, shards_thorough=8),
-    Sub("srf", gen_srf, check_srf, quick=160, thorough=5000, shards_quick=2, shards_thorough=4, shrink_quick=False),
+    Sub("srf", gen_srf, check_srf, quick=160, thorough=4000, shards_quick=2, shards_thorough=4, shrink_quick=False),
     Sub("estimator", gen_estimator, check_estimator, quick=1200, thorough=30000, shards_quick=3, shards_thorough=8),
     Sub("fit", gen_fit, check_fit, quick=240, thorough=5000, shards_quick=2, shards_thorough=4),
     Sub("rotation", gen_rotation, check_rotation, quick=400, thorough=10000, shards_quick=2, shards_thorough=6),
